@@ -129,7 +129,7 @@ class CacheStore(object):
                 continue
             self._remove_filename(os.path.join(self._directory, filename))
 
-    def store(self, filename, data):
+    def store(self, filename, data, mtime_ns=None):
         store_filename = self._get_filename(filename)
         if store_filename is None:
             return
@@ -141,6 +141,10 @@ class CacheStore(object):
         try:
             with os.fdopen(tmp_fd, 'wb') as tmp_file:
                 pickle.dump(data, tmp_file)
+            if mtime_ns is not None:
+                # Date the entry like the file it was parsed from, so that a
+                # later change of that file always makes the entry stale.
+                os.utime(tmp_filename, ns=(mtime_ns, mtime_ns))
         except (IOError, OSError) as e:
             # No space left on device
             if e.errno == errno.ENOSPC:
